@@ -38,17 +38,32 @@ def main():
     from hypnotoad.cases import tokamak
     from hypnotoad.core.mesh import BoutMesh
 
-    r1d, z1d, psi2d, psi1d = E.tokamak_arrays("lsn", 65, 65)
-    fpol1d = 1.0 - 0.1 * psi1d ** 2
-    pres = 1000.0 * (0.2 + psi1d ** 2)
-    arrays = {"r1d": r1d, "z1d": z1d, "psi2d": psi2d, "psi1d": psi1d, "fpol1d": fpol1d, "pres": pres}
-    pristine = {k: v.copy() for k, v in arrays.items()}
+    # two caller array sets: I1 the symmetric lower single null, I2 the same with a tilted X-point (a different flux function)
+    inputs = {}
+    for iname, geom in (("I1", "lsn"), ("I2", "lsn_tilt")):
+        r1d, z1d, psi2d, psi1d = E.tokamak_arrays(geom, 65, 65)
+        inputs[iname] = {"r1d": r1d, "z1d": z1d, "psi2d": psi2d, "psi1d": psi1d, "fpol1d": 1.0 - 0.1 * psi1d ** 2, "pres": 1000.0 * (0.2 + psi1d ** 2)}
+    pristine_all = {i: {k: v.copy() for k, v in a.items()} for i, a in inputs.items()}
     events = []
     eq = None
     opts = None
     status = {"events": events}
     try:
-        for name in job["history"]:
+        for item in job["history"]:
+            # an item is an option-set name (BuildEq from I1), "name@I2" (BuildEq from I2), or "M" (build a mesh from the current
+            # equilibrium and compute its geometry, without writing: state that a later build must not see)
+            if item == "M":
+                if eq is not None:
+                    with E.quiet():
+                        m0 = BoutMesh(eq, opts)
+                        events.append({"ev": "BuildMesh", "arg": "", "input": "", "out": "ok", "changed": 0, "which": "", "pristine": 0, "digest": 0})
+                        m0.geometry()
+                        events.append({"ev": "Geometry", "arg": "", "input": "", "out": "ok", "changed": 0, "which": "", "pristine": 0, "digest": 0})
+                continue
+            name, _, iname = item.partition("@")
+            iname = iname or "I1"
+            arrays = inputs[iname]
+            pristine = pristine_all[iname]
             opts = dict(job["base"])
             opts.update(job["optsets"][name])
             before = {k: v.copy() for k, v in arrays.items()}
@@ -57,24 +72,24 @@ def main():
                     eq = tokamak.TokamakEquilibrium(arrays["r1d"], arrays["z1d"], arrays["psi2d"], arrays["psi1d"], arrays["fpol1d"], pressure=arrays["pres"],
                                                     wall=E.default_wall(), settings=dict(opts), nonorthogonal_settings=dict(opts))
                 out = "ok"
-            except Exception as e:  # noqa
+            except BaseException as e:  # noqa
                 out = "refused"
                 eq = None
                 status.setdefault("exc", []).append("%s: %s" % (type(e).__name__, str(e)[:150]))
             changed = [k for k in arrays if not np.array_equal(arrays[k], before[k])]
-            events.append({"ev": "BuildEq", "arg": name, "out": out, "changed": 1 if changed else 0, "which": ",".join(changed),
+            events.append({"ev": "BuildEq", "arg": name, "input": iname, "out": out, "changed": 1 if changed else 0, "which": ",".join(changed),
                            "pristine": 1 if all(np.array_equal(arrays[k], pristine[k]) for k in arrays) else 0, "digest": 0})
         if eq is not None:
             with E.quiet():
                 mesh = BoutMesh(eq, opts)
-                events.append({"ev": "BuildMesh", "arg": "", "out": "ok", "changed": 0, "which": "", "pristine": 0, "digest": 0})
+                events.append({"ev": "BuildMesh", "arg": "", "input": "", "out": "ok", "changed": 0, "which": "", "pristine": 0, "digest": 0})
                 mesh.geometry()
-                events.append({"ev": "Geometry", "arg": "", "out": "ok", "changed": 0, "which": "", "pristine": 0, "digest": 0})
+                events.append({"ev": "Geometry", "arg": "", "input": "", "out": "ok", "changed": 0, "which": "", "pristine": 0, "digest": 0})
                 fn = os.path.join(outdir, "grid.nc")
                 mesh.writeGridfile(fn)
-            events.append({"ev": "Write", "arg": "", "out": "ok", "changed": 0, "which": "", "pristine": 0, "digest": file_digest(fn)})
+            events.append({"ev": "Write", "arg": "", "input": "", "out": "ok", "changed": 0, "which": "", "pristine": 0, "digest": file_digest(fn)})
             mesh.parallel_map = None
-    except Exception as e:  # noqa
+    except BaseException as e:  # noqa  (func_timeout's FunctionTimedOut is a BaseException)
         import traceback
         status["fatal"] = "%s: %s" % (type(e).__name__, str(e)[:300])
         status["traceback"] = traceback.format_exc()[-1500:]
